@@ -1,0 +1,6 @@
+//go:build verif
+
+package text
+
+// VerifRestLen reports how many bytes the scanner has not consumed yet.
+func (s *SoftwrapScanner) VerifRestLen() int { return len(s.rest) }
